@@ -832,7 +832,7 @@ def add_zoo(w, parts=ZOO_ALL):
                     w.genes.append(c)
                 else:
                     c = clone_gene(w, x, "X%d" % (ci + 2), chrom, x.start)
-                    if c and ci % 3 == 1 and len(c.transcripts) > 1:
+                    if c and ci % 3 == 0 and len(c.transcripts) > 1:
                         # same sequence and coordinates, but the second isoform is NOT annotated on this chromosome
                         for t in c.transcripts[1:]:
                             t.annotated = False
@@ -848,7 +848,7 @@ def add_zoo(w, parts=ZOO_ALL):
                     name = w.new_read_name("mmsame")
                     a, b = intr[0] + 40 + 7 * k, intr[0] + 40 + 7 * k + 150
                     # on the first sequence and on those that carry an exact copy of the locus (equal regions: an exact tie)
-                    order = [w.chrom_order[0]] + [c_ for ci_, c_ in enumerate(w.chrom_order[1:]) if ci_ % 3 == 0 and c_ in w.chroms and
+                    order = [w.chrom_order[0]] + [c_ for ci_, c_ in enumerate(w.chrom_order[1:]) if ci_ % 3 == 1 and c_ in w.chroms and
                                                   any(g_.id.startswith("X") and g_.chrom == c_ for g_ in w.genes)]
                     if k % 2:
                         order = order[1:] + order[:1]       # the primary alignment is not always on the first sequence
@@ -857,7 +857,7 @@ def add_zoo(w, parts=ZOO_ALL):
                                     truth={"multimap": True, "class": "mm-uninformative-same-coordinates"})
                 # the longest of these sequences (handled first by a single process) carries extra reads in front of the locus: counters
                 # that run per process reach the locus with a higher value there than on the other sequences when each has its own process
-                tied = [w.chrom_order[0]] + [c_ for ci_, c_ in enumerate(w.chrom_order[1:]) if ci_ % 3 == 0]
+                tied = [w.chrom_order[0]] + [c_ for ci_, c_ in enumerate(w.chrom_order[1:]) if ci_ % 3 == 1]
                 longest = max(tied, key=w.chrom_len)
                 first = min([g_ for g_ in w.genes if g_.chrom == longest and g_.transcripts and g_.end < common], key=lambda g_: g_.start, default=None)
                 if first is not None:
